@@ -112,8 +112,39 @@ def spec_json(g):
             "rules": [{"lhs": r["lhs"], "alts": [{"cond": a["cond"], "seq": a["seq"]} for a in r["alts"]]} for r in g["rules"]]}
 
 
+SPICE = [0]          # probability (percent) of rewriting a guard into an equivalent, more convoluted one
+
+
+def spice(c, rng):
+    """an equivalent condition built with true / not / and / or (the documented functions)"""
+    x = rng.random()
+    if x < 0.25:
+        return not_(not_(c))
+    if x < 0.5:
+        return and_(c, TRUE) if rng.random() < 0.5 else and_(TRUE, c)
+    if x < 0.75:
+        return or_(c, not_(TRUE)) if rng.random() < 0.5 else or_(not_(TRUE), c)
+    return not_(or_(not_(c), not_(TRUE)))
+
+
 def alt(seq, cond=TRUE):
     return {"cond": cond, "seq": seq}
+
+
+def spice_grammar(g, rng, pct):
+    """rewrite some guards (never `true` itself: an unguarded alternative stays unguarded); now and then add an
+    alternative that can never be taken (guard not(true)) next to an existing one"""
+    for r in g["rules"]:
+        if not r["param"]:
+            continue
+        extra = []
+        for a in r["alts"]:
+            if a["cond"]["f"] != "true" and rng.randrange(100) < pct:
+                a["cond"] = spice(a["cond"], rng)
+            if rng.randrange(100) < pct // 3:
+                extra.append({"cond": not_(TRUE) if rng.random() < 0.5 else and_(not_(TRUE), a["cond"]), "seq": [] if rng.random() < 0.5 else list(a["seq"])})
+        r["alts"] += extra
+    return g
 
 
 def _terms(rng, k):
@@ -251,16 +282,38 @@ def g_nullpair(rng):
     return {"start": "start", "rules": [
         {"lhs": "start", "param": False, "alts": [alt([ref("pair", const(0))])]},
         {"lhs": "pair", "param": True, "alts": [alt([ref("opt", SELF), ref("opt", fn_k("set_bit", 1)), ts[0], ref("tail", SELF)])]},
-        {"lhs": "opt", "param": True, "alts": [alt([], fn_k("bit_clear", 1) if rng.random() < 0.5 else TRUE), alt([ts[1]])]},
+        {"lhs": "opt", "param": True, "alts": [alt([], fn_k("bit_clear", 1) if rng.random() < 0.5 else cmp_("le", [0, 4], 3)), alt([ts[1]])]},   # (a parametric rule must use its parameter)
         {"lhs": "tail", "param": True, "alts": [alt([ref("item", SELF), ref("tail", fn_r("incr", ALL))]), alt([])]},
         {"lhs": "item", "param": True, "alts": [alt([ts[2]], cmp_("lt", ALL, n))]}]}
 
 
-SHAPES = [g_nullpair, g_atleast, g_atleast, g_updown, g_perm, g_perm, g_count, g_count, g_bounded_ab, g_pick, g_countdown, g_nested]
+def g_twoinst(rng):
+    """several instances of one symbol predicted at the same position with different continuations: finishing
+    sel::p must only advance the items that were waiting for sel with that very value"""
+    ts = _terms(rng, 5)
+    while len(ts) < 5:
+        ts.append(ts[len(ts) % 2])
+    k1, k2 = rng.sample([0, 1, 2, 3, 5, 6], 2)
+    sel_alts = [alt([ts[2]], fn_k("bit_set", 0)), alt([ts[3]], fn_k("bit_clear", 0))]
+    if rng.random() < 0.6:
+        sel_alts.append(alt([ts[4]] if len(ts) > 4 else [ts[2], ts[2]], cmp_("ge", [1, 3], 1)))
+    if rng.random() < 0.4:
+        sel_alts.append(alt([ts[2], ref("sel", fn_r("decr", [0, 3]))], cmp_("gt", [0, 3], 4)))
+    starts = [alt([ref("sel", const(k1)), ts[0]]), alt([ref("sel", const(k2)), ts[1]])]
+    if rng.random() < 0.4:
+        starts.append(alt([ref("sel", const(k1 ^ 1)), ts[1], ts[0]]))
+    return {"start": "start", "rules": [{"lhs": "start", "param": False, "alts": starts},
+                                        {"lhs": "sel", "param": True, "alts": sel_alts}]}
+
+
+SHAPES = [g_twoinst, g_twoinst, g_nullpair, g_atleast, g_atleast, g_updown, g_perm, g_perm, g_count, g_count, g_bounded_ab, g_pick, g_countdown, g_nested]
 
 
 def rand_grammar(rng):
-    return rng.choice(SHAPES)(rng)
+    g = rng.choice(SHAPES)(rng)
+    if rng.random() < 0.35:
+        g = spice_grammar(g, rng, 40)
+    return g
 
 
 def alphabet(g):
